@@ -52,6 +52,7 @@ fn run_line(line: &str) -> String {
         "Y" => green_cases::run_y(&args),
         "I" => intern_cases::run_case(&args),
         "K" => conc_cases::run_k(&args),
+        "U" => conc_cases::run_l(&args),
         "E" => example_cases::run_e(&args),
         "Q" => token_cases::run_q(&args),
         "X" => text_cases::run_x(&args),
